@@ -11,7 +11,7 @@ use std::time::{Duration, SystemTime, UNIX_EPOCH};
 
 pub static DEF: PropDef = PropDef {
     id: "C14",
-    rule: "a fixed directory of ~150 sparse files with sizes k*u-1, k*u, k*u+1 for every unit u in {1,2,512,2^10,2^20,2^30} and k in {0,1,2,3,5} (up to 5 GiB), hard-link counts 1-5, owners {0,1,65534,54321}, and a/m-times at now - (k*period +/- 1s, +/- 1ns) under an injected clock; random operands: test in {-size with every unit suffix, -links, -inum, -uid, -gid, -atime/-mtime, -amin/-mmin} x N at/around every measured value, 0, and near 2^63 / 2^64-1. Per case five in-process runs (N, +N, -N, +(N+1), -(N+1)). Oracle: model value (ceil(size/unit), stat field, whole elapsed periods): exactly one of the three forms selects each file and it is the one the model predicts; +N selections shrink and -N selections grow with N. Non-trivial = N lies within +/-1 of some file's measured value. Distinct = distinct case JSON.",
+    rule: "a fixed directory of ~150 sparse files with sizes k*u-1, k*u, k*u+1 for every unit u in {1,2,512,2^10,2^20,2^30} and k in {0,1,2,3,5} (up to 5 GiB), and k*u +/- 2^e for every e < log2(u), k in {1,2}, hard-link counts 1-5, owners {0,1,65534,54321}, and a/m-times at now - (k*period +/- 1s, +/- 1ns) under an injected clock; random operands: test in {-size with every unit suffix, -links, -inum, -uid, -gid, -atime/-mtime, -amin/-mmin} x N at/around every measured value, 0, and near 2^63 / 2^64-1. Per case five in-process runs (N, +N, -N, +(N+1), -(N+1)). Oracle: model value (ceil(size/unit), stat field, whole elapsed periods): exactly one of the three forms selects each file and it is the one the model predicts; +N selections shrink and -N selections grow with N. Non-trivial = N lies within +/-1 of some file's measured value. Distinct = distinct case JSON.",
     assumptions: &["sparse files on the sandbox file system report st_size faithfully", "ctime cannot be set; -ctime/-cmin are exercised in C15 with read-back timestamps", "N > 2^64-1 is an invalid operand (C11), not generated here"],
     run,
     replay,
